@@ -35,6 +35,9 @@ type j2kCase struct {
 	Ratio  float64 `json:"ratio,omitempty"`
 	PCRD   bool    `json:"pcrd,omitempty"`
 	Append bool    `json:"append,omitempty"`
+	// NatRatio > 0: TargetRatio is set to NatRatio times the ratio this image achieves without a
+	// rate target (measured by a preliminary encode in Exec): rate control that converges at once
+	NatRatio float64 `json:"natratio,omitempty"`
 	Class  string  `json:"class"`
 	CSeed  uint64  `json:"cseed"`
 }
@@ -67,6 +70,16 @@ func (c *j2kCase) pixels() []byte {
 func j2kReversibleRT(c *j2kCase, res *mon.Result) {
 	px := c.pixels()
 	keep := append([]byte(nil), px...)
+	if c.NatRatio > 0 {
+		plain := *c
+		plain.Ratio, plain.PCRD, plain.Append, plain.NatRatio = 0, false, false, 0
+		if cs0, err := jpeg2000.NewEncoder(plain.params(true)).Encode(append([]byte(nil), px...)); err == nil && len(cs0) > 0 {
+			cc := *c
+			cc.Ratio = c.NatRatio * float64(len(px)) / float64(len(cs0))
+			c = &cc
+			res.AddFeat("natratio_cases", 1)
+		}
+	}
 	enc := jpeg2000.NewEncoder(c.params(true))
 	cs, err := enc.Encode(px)
 	if err != nil {
@@ -88,7 +101,12 @@ func j2kReversibleRT(c *j2kCase, res *mon.Result) {
 		res.Msg = fmt.Sprintf("decoder reports %dx%d c=%d P=%d signed=%v, expected %dx%d c=%d P=%d signed=%v", dec.Width(), dec.Height(), dec.Components(), dec.BitDepth(), dec.IsSigned(), c.W, c.H, c.C, c.P, c.Signed)
 		return
 	}
-	out := dec.GetPixelData()
+	out := append([]byte(nil), dec.GetPixelData()...)
+	if again := dec.GetPixelData(); firstDiff(again, out) >= 0 || len(again) != len(out) {
+		res.V, res.Class = mon.Violated, "reread-differs"
+		res.Msg = fmt.Sprintf("a second GetPixelData() on the same Decoder differs from the first at byte %d (len %d vs %d)", firstDiff(again, out), len(again), len(out))
+		return
+	}
 	if i, g, w := firstSampleDiff(out, px, c.P); i >= 0 {
 		res.V, res.Class = mon.Violated, "pixel-mismatch"
 		x, y := (i/c.C)%c.W, i/c.C/c.W
@@ -440,6 +458,30 @@ func (c19) Build(tier string, seed uint64) []any {
 	nPartial, nSmall, nRand, nBig := 160, 160, 480, 8
 	if th {
 		nPartial, nSmall, nRand, nBig = 4000, 4000, 25000, 400
+	}
+	// (natratio) global rate allocation whose target is (almost) what the lossless stream
+	// achieves anyway: the allocator's refinement loop converges on its first trial
+	nNat := 60
+	if th {
+		nNat = 1500
+	}
+	for i := 0; i < nNat; i++ {
+		r := gen.Sub(seed, "C19", "natratio", i)
+		c := &j2kCase{Gen: "natratio"}
+		randTileConfig(r, c)
+		// at least two layers: with a single layer there is no room for the final lossless layer
+		// the property speaks of, and a rate target legitimately truncates the only layer
+		c.Layers = gen.Pick(r, 2, 2, 3, 4)
+		c.PCRD, c.Append = gen.Pick(r, true, true, false), true
+		c.Ratio = 0
+		c.NatRatio = gen.Pick(r, 0.9, 0.96, 0.98, 1.0, 1.0, 1.02, 1.04, 1.1, 1.3)
+		c.W, c.H = 8+r.Intn(88), 8+r.Intn(88)
+		c.TW, c.TH = 1+(c.W-1)/(1+r.Intn(4)), 1+(c.H-1)/(1+r.Intn(4))
+		if c.TW >= c.W && c.TH >= c.H {
+			c.TW = (c.W + 1) / 2
+		}
+		c.Class = gen.Pick(r, "noise", "noise", "smooth", "varnoise")
+		cs = append(cs, c)
 	}
 	for i := 0; i < nPartial; i++ {
 		r := gen.Sub(seed, "C19", "partial", i)
